@@ -216,8 +216,15 @@ pub fn dispatch(a: &[String]) -> String {
       // each result is compared with the result of the same expression evaluated alone beforehand
       let millis: u64 = i(&a[1]);
       let threads: usize = i(&a[2]);
-      let exprs: std::sync::Arc<Vec<String>> = std::sync::Arc::new(a[3..].to_vec());
-      let want: std::sync::Arc<Vec<String>> = std::sync::Arc::new(exprs.iter().map(|e| crate::feel_eval(None, e)).collect());
+      // `--want <result>...` after the expressions: the result of each expression evaluated alone IN A PROCESS OF ITS OWN (a process-wide
+      // cache filled by an earlier expression must not count as "alone"); without it the results are computed here, one after another
+      let split = a[3..].iter().position(|x| x == "--want").map(|p| p + 3).unwrap_or(a.len());
+      let exprs: std::sync::Arc<Vec<String>> = std::sync::Arc::new(a[3..split].to_vec());
+      let want: std::sync::Arc<Vec<String>> = if split < a.len() {
+        std::sync::Arc::new(a[split + 1..].to_vec())
+      } else {
+        std::sync::Arc::new(exprs.iter().map(|e| crate::feel_eval(None, e)).collect())
+      };
       let deadline = std::time::Instant::now() + std::time::Duration::from_millis(millis);
       let mut handles = vec![];
       for t in 0..threads {
